@@ -773,6 +773,38 @@ def oracle_continuous(out, rng, N):
                          inp, observed=float(delivered), expected=want, rel_error=rel)
 
 
+def oracle_windows(out, rng, N):
+    """the two windows at their boundaries (millisecond granularity): impulse in (date, date+step], thrust on [start, stop)"""
+    from beyond.dates import Date, timedelta
+    from beyond.orbits.man import ImpulsiveMan, ContinuousMan
+    d0 = Date(2020, 5, 24)
+    for _ in range(N):
+        t = rng.randrange(0, 86_400_000)
+        h = rng.choice([1, 1000, 60000, rng.randrange(2, 200000)])
+        date = ms_date(d0, t)
+        step = timedelta(milliseconds=h)
+        for off, want in ((0, False), (1, True), (h, True), (h + 1, False), (-1, False), (h // 2 + 1, True)):
+            got = ImpulsiveMan(ms_date(d0, t + off), [1, 0, 0]).check(date, step)
+            out.count(key=("icheck", t, h, off), kind="impulse-check", expected=want)
+            if bool(got) != want:
+                out.fail("impulse-check-boundary", "ImpulsiveMan.check(date, step) is not date < t_m <= date + step",
+                         {"date_ms": t, "step_ms": h, "man_ms": t + off}, observed=bool(got), expected=want)
+        man = ContinuousMan(date, step, accel=[1e-3, 0, 0], date_pos=rng.choice(["start", "start", "stop", "median"]))
+        s_ms = round((man.start - d0).total_seconds() * 1000)
+        if h % 2 and man.date_pos == "median":
+            continue
+        for off, want in ((0, True), (-1, False), (h - 1, h > 1 or True), (h, False), (h + 1, False)):
+            if off == h - 1:
+                want = True
+            got = man.check(ms_date(d0, s_ms + off))
+            out.count(key=("ccheck", s_ms, h, off), kind="thrust-check", expected=want)
+            if bool(got) != want:
+                out.fail("thrust-check-boundary", "ContinuousMan.check(date) is not start <= date < stop",
+                         {"start_ms": s_ms, "duration_ms": h, "date_ms": s_ms + off, "date_pos": man.date_pos}, observed=bool(got), expected=want)
+        if abs((man.stop - man.start).total_seconds() * 1000 - h) > 1e-3 or abs((man.median - man.start).total_seconds() * 2000 - h) > 2e-3:
+            out.fail("thrust-window-length", "stop - start is not the duration / median is not the middle", {"duration_ms": h, "date_pos": man.date_pos})
+
+
 def stable_dkep2dv(v, a, i, da, di, dO, mu=MU):
     """the formulas of dkep2dv evaluated without the law-of-cosines cancellation"""
     dv_a = mu * da / (2 * v * a ** 2)
@@ -843,14 +875,31 @@ def oracle_dkep(out, rng, N):
         inp = {"kep": kep, "da": da, "di": di, "dOmega": dO}
         mag = norm(sdv)
         out.count(key=("dkep", tuple(kep), da, di, dO), kind="dkep2dv-" + ("a" if da else "") + ("i" if di else "") + ("O" if dO else ""), nontrivial=bool(da or di or dO))
-        if not np.all(np.isfinite(dv)):
-            out.fail("dkep2dv-alkashi-cancellation", "dkep2dv returns a non-finite delta-v", inp, observed=dv.tolist(), expected=sdv)
+        # (a) dv_t and the zero normal component do not go through the law-of-cosines detour: tight comparison
+        eps = 2.3e-16
+        if dv[1] != 0 or not math.isfinite(dv[0]) or abs(dv[0] - sdv[0]) > 64 * eps * v + 1e-9 * abs(sdv[0]):
+            out.fail("dkep2dv-formula-dv_t", "dkep2dv: tangential / normal component differs from v_final cos(dangle) - v, 0", inp, observed=dv.tolist(), expected=sdv)
             continue
-        if not np.allclose(dv, sdv, rtol=0, atol=1e-6 * mag + 1e-12):
-            what = ("an out-of-plane component appears although no plane change is requested" if not plane and dv[2] != 0 else
-                    "the plane-change component is dropped (isclose(ratio, 1) branch)" if plane and dv[2] == 0 else
-                    "delta-v differs from the same formulas evaluated without cancellation")
-            out.fail("dkep2dv-alkashi-cancellation", "dkep2dv: " + what, inp, observed=dv.tolist(), expected=sdv)
+        # (b) dv_w = dv sqrt(1 - ratio^2): a discrepancy is attributed to the known cancellation only if the rounding of
+        #     dv^2 = v^2 + v_f^2 - 2 v v_f cos (relative error delta ~ 8 eps v^2 / dv^2) can explain it
+        bad = (not math.isfinite(dv[2])) or abs(dv[2] - sdv[2]) > 1e-6 * mag + 1e-12
+        if bad:
+            if mag == 0:
+                explained = True                                   # 0 / 0
+            else:
+                delta = 8 * eps * v * v / (mag * mag)
+                one_minus = (sdv[2] / mag) ** 2                      # exact 1 - ratio^2
+                if not math.isfinite(dv[2]):
+                    explained = one_minus <= 100 * delta             # ratio rounded above 1
+                elif dv[2] == 0:
+                    explained = one_minus <= 2.2 * (1e-5 + 1e-8) + 100 * delta   # isclose(ratio, 1) shortcut
+                else:
+                    explained = abs(dv[2] - sdv[2]) <= 4 * mag * math.sqrt(delta)
+            what = ("returns a non-finite delta-v" if not math.isfinite(dv[2]) else
+                    "an out-of-plane component appears although no plane change is requested" if not plane else
+                    "the requested plane change is dropped (isclose(ratio, 1) shortcut)" if dv[2] == 0 else
+                    "out-of-plane component differs from |v_final sin(dangle)|")
+            out.fail("dkep2dv-alkashi-cancellation" if explained else "dkep2dv-formula-dv_w", "dkep2dv: " + what, inp, observed=dv.tolist(), expected=sdv)
             continue
         # first-order realisation
         new = apply_dv(orbc, dv).copy(form="keplerian")
@@ -875,6 +924,7 @@ def oracle(ctx, widened):
     oracle_projection(out, rng, 1500 if big else 200)
     oracle_orbit_frame(out, rng, 60 if big else 10)
     oracle_impulses(out, rng, 250 if big else 25)
+    oracle_windows(out, rng, 2000 if big else 200)
     oracle_continuous(out, rng, 300 if big else 40)
     oracle_dkep(out, rng, 3000 if big else 400)
     return out
